@@ -1576,6 +1576,10 @@ void EvalStrExpression(tStrComp const* pExpr, TempResult* pErg) {
         PromotedAddrSpaceMask = 0;
         PromotedDataSize      = eSymbolSizeUnknown;
         do {
+            if (cnt >= 3) {
+                WrError(ErrNum_InvFuncArgCnt);
+                LEAVE;
+            }
             zp = QuotPos(FArg.str.p_str, ',');
             if (zp) {
                 StrCompSplitRef(&InArgs[cnt], &Remainder, &FArg, zp);
